@@ -48,6 +48,18 @@ def frame(scene):
             df.index = pd.RangeIndex(idx[0], idx[0] + (idx[1] - idx[0]) * len(idx), idx[1] - idx[0])   # a genuine RangeIndex
         else:
             df.index = pd.Index(idx)
+    if scene.get('assemble') == 'checked_concat':
+        # each instrument's table is vetted with the public check first, then the tables are concatenated
+        # (pandas carries DataFrame.attrs and the per-table row labels through pd.concat)
+        import warnings as _w
+        from ampycloud.utils.utils import check_data_consistency
+        parts = []
+        with _w.catch_warnings():
+            _w.simplefilter('ignore')
+            for c in pd.unique(df['ceilo']):
+                part = df[df['ceilo'] == c].reset_index(drop=True)
+                parts.append(check_data_consistency(part))
+        df = pd.concat(parts)
     if scene.get('extra') == 'objects':
         # superfluous columns (documented as warning-only) holding arbitrary objects
         n = len(df)
